@@ -3,10 +3,141 @@
 
 use std::io::{BufRead, Write};
 use std::panic::{catch_unwind, AssertUnwindSafe};
+use std::sync::{Arc, Mutex};
 
 use oxipng::verif::*;
 use oxipng::RawImage;
 use oxiverif_harness::*;
+
+#[derive(Default)]
+struct Log {
+    deflates: Vec<(Deflaters, Vec<u8>)>,
+    inflates: Vec<(Vec<u8>, usize)>,
+    filtered: Vec<(String, bool, Vec<u8>, u8)>,
+    candidates: Vec<(usize, usize, String)>,
+    trials: Vec<(usize, usize, u8, Option<usize>)>,
+    skipped: Vec<(usize, usize, u8)>,
+    evaluators: Vec<(usize, String, String, bool)>,
+    best_sizes: Vec<(usize, usize)>,
+    deadline_calls: usize,
+}
+
+struct RecTap {
+    log: Mutex<Log>,
+    /// the k-th and later consultations of the clock answer "passed"
+    expire_at: Option<usize>,
+}
+
+impl Tap for RecTap {
+    fn candidate(&self, eval: usize, nth: usize, _d: &str, image: &PngImage) {
+        self.log.lock().unwrap().candidates.push((eval, nth, fmt_img(image)));
+    }
+    fn trial(&self, eval: usize, nth: usize, filter: RowFilter, size: Option<usize>) {
+        self.log.lock().unwrap().trials.push((eval, nth, filter as u8, size));
+    }
+    fn skipped(&self, eval: usize, nth: usize, filter: RowFilter) {
+        self.log.lock().unwrap().skipped.push((eval, nth, filter as u8));
+    }
+    fn deadline(&self) -> Option<bool> {
+        let mut l = self.log.lock().unwrap();
+        let n = l.deadline_calls;
+        l.deadline_calls += 1;
+        self.expire_at.map(|k| n >= k)
+    }
+    fn deflate(&self, deflater: Deflaters, data: &[u8], _max: Option<usize>) {
+        let mut l = self.log.lock().unwrap();
+        if !l.deflates.iter().any(|(d, x)| *d == deflater && x == data) {
+            l.deflates.push((deflater, data.to_vec()));
+        }
+    }
+    fn inflate(&self, data: &[u8], out_size: usize) {
+        let mut l = self.log.lock().unwrap();
+        if !l.inflates.iter().any(|(x, n)| *n == out_size && x == data) {
+            l.inflates.push((data.to_vec(), out_size));
+        }
+    }
+    fn filtered(&self, image: &PngImage, filter: RowFilter, alpha: bool, filtered: &[u8]) {
+        if filter == RowFilter::Brute {
+            self.log.lock().unwrap().filtered.push((fmt_img(image), alpha, filtered.to_vec(), filter as u8));
+        }
+    }
+    fn evaluator(&self, eval: usize, filters: &[RowFilter], deflater: Deflaters, final_round: bool) {
+        let f: Vec<String> = filters.iter().map(|f| (*f as u8).to_string()).collect();
+        self.log.lock().unwrap().evaluators.push((eval, f.join("+"), fmt_deflater(deflater), final_round));
+    }
+    fn best_size(&self, eval: usize, size: usize) {
+        self.log.lock().unwrap().best_sizes.push((eval, size));
+    }
+}
+
+fn fmt_deflater(d: Deflaters) -> String {
+    match d {
+        Deflaters::Libdeflater { compression } => format!("zc={compression}"),
+        Deflaters::Zopfli { iterations } => format!("zopfli={iterations}"),
+    }
+}
+
+/// row filter types of a filtered stream of `img`
+fn row_types(img: &PngImage, filtered: &[u8]) -> String {
+    let mut s = String::new();
+    let mut off = 0;
+    for l in img.scan_lines(false) {
+        if off < filtered.len() {
+            s.push((b'0' + filtered[off].min(9)) as char);
+        }
+        off += l.data.len() + 1;
+    }
+    s
+}
+
+/// run `f` with a recording tap installed; returns its result and the oracle records
+fn with_log<T>(expire_at: Option<usize>, f: impl FnOnce() -> T) -> (T, String) {
+    let tap = Arc::new(RecTap { log: Mutex::new(Log::default()), expire_at });
+    reset_eval_ids();
+    set_tap(Some(tap.clone()));
+    let r = catch_unwind(AssertUnwindSafe(f));
+    set_tap(None);
+    let log = std::mem::take(&mut *tap.log.lock().unwrap());
+    let mut out = String::new();
+    for (d, x) in &log.deflates {
+        let y = deflaters_deflate(*d, x, None).map(|y| hex(&y)).unwrap_or_else(|_| "err".to_string());
+        out.push_str(&format!(" | D {} {} {}", fmt_deflater(*d), hex(x), y));
+    }
+    for (x, n) in &log.inflates {
+        let y = match inflate(x, *n) {
+            Ok(y) => format!("ok:{}", hex(&y)),
+            Err(e) => format!("err:{}", err_kind(&e)),
+        };
+        out.push_str(&format!(" | I {} {} {}", n, hex(x), y));
+    }
+    for (tok, alpha, filt, _) in &log.filtered {
+        out.push_str(&format!(" | B {} {} {}", *alpha as u8, tok, row_types(&parse_img(tok), filt)));
+    }
+    for (e, f, d, fr) in &log.evaluators {
+        out.push_str(&format!(" | E {} {} {} {}", e, if f.is_empty() { "-" } else { f }, d, *fr as u8));
+    }
+    for (e, s) in &log.best_sizes {
+        out.push_str(&format!(" | S {} {}", e, s));
+    }
+    for (e, n, tok) in &log.candidates {
+        out.push_str(&format!(" | C {} {} {}", e, n, tok));
+    }
+    let mut trials = log.trials.clone();
+    trials.sort();
+    for (e, n, f, sz) in &trials {
+        out.push_str(&format!(" | T {} {} {} {}", e, n, f, sz.map_or("-".to_string(), |s| s.to_string())));
+    }
+    let mut sk = log.skipped.clone();
+    sk.sort();
+    for (e, n, f) in &sk {
+        out.push_str(&format!(" | K {} {} {}", e, n, f));
+    }
+    out.push_str(&format!(" | N {}", log.deadline_calls));
+    match r {
+        Ok(v) => (v, out),
+        Err(p) => std::panic::resume_unwind(p),
+    }
+}
 
 fn opt_img(r: Option<PngImage>) -> String {
     match r {
@@ -122,6 +253,17 @@ fn run(t: &[&str]) -> String {
                 Err(e) => format!("err {}", err_kind(&e)),
             }
         }
+        // optlog <opts> <expire|-> <filehex>: optimize_from_memory with oracle records
+        "optlog" => {
+            let o = parse_opts(t[1]);
+            let exp = if t[2] == "-" { None } else { Some(t[2].parse().unwrap()) };
+            let data = unhex(t[3]);
+            let (r, rec) = with_log(exp, || oxipng::optimize_from_memory(&data, &o));
+            match r {
+                Ok(b) => format!("ok {}{}", hex(&b), rec),
+                Err(e) => format!("err {}{}", err_kind(&e), rec),
+            }
+        }
         // raw <opts> <img> [chunkname:hex ...] [icc:hex]
         "raw" => {
             let o = parse_opts(t[1]);
@@ -144,6 +286,24 @@ fn run(t: &[&str]) -> String {
                     }
                 }
             }
+        }
+        // all 65536 values through scaled_bit_depth_16_to_8 (gray 16, 256x256)
+        "scale8_all" => {
+            let mut data = Vec::with_capacity(131072);
+            for v in 0..=65535u16 {
+                data.extend_from_slice(&v.to_be_bytes());
+            }
+            let img = PngImage {
+                ihdr: IhdrData {
+                    width: 256,
+                    height: 256,
+                    color_type: ColorType::Grayscale { transparent_shade: None },
+                    bit_depth: BitDepth::Sixteen,
+                    interlaced: Interlacing::None,
+                },
+                data,
+            };
+            format!("ok {}", hex(&scaled_bit_depth_16_to_8(&img).unwrap().data))
         }
         "crc32" => format!("ok {}", crc32(&unhex(t[1]))),
         // deflate <zc|zopfli=N> <max|-> <hex>
